@@ -273,6 +273,18 @@ def catalogue_cases(chk, root, ncases):
             else:
                 lines.insert(j, bytes(rng.randint(0, 255) for _ in range(rng.randint(1, 40))))
         cases.append((i, f, b"\n".join(lines)))
+    # targeted, in every run: the identifier column of the mode catalogue (first / third token of a record) replaced by each hostile value
+    mlines = orig["dbd_modes.lis"].split(b"\n")
+    recs = [k for k, l in enumerate(mlines) if l.strip() and not l.lstrip().startswith(b"#")]
+    for col in (0, 2):
+        for hv in hostile + [b"25", b"-3", b"999", b"21.5"]:
+            ls = list(mlines)
+            k = recs[rng.randint(0, len(recs) - 1)]
+            toks = ls[k].split()
+            if len(toks) > col:
+                toks[col] = hv
+                ls[k] = b" ".join(toks)
+                cases.append((len(cases), "dbd_modes.lis", b"\n".join(ls)))
 
     def one(case):
         i, f, content = case
